@@ -22,6 +22,27 @@
 #include "work_stealing_deque.h"
 
 #define MAXV 8192
+// what the structures store is a pointer-sized item; cfg item_shape picks how the small value ids are turned into one:
+// 0: the id itself, 1: id << 32 (low 32 bits all zero), 2: id << 48, 3: id with bit 63 set, 4: id * 4096 (page-aligned)
+static DSVAR int ds_shape;
+static inline void* ENCV(long v) {
+  switch (ds_shape) {
+    case 1: return (void*)((uintptr_t)v << 32);
+    case 2: return (void*)((uintptr_t)v << 48);
+    case 3: return (void*)((uintptr_t)v | (1ull << 63));
+    case 4: return (void*)((uintptr_t)v << 12);
+    default: return (void*)v;
+  }
+}
+static inline long DECV(const void* p) {
+  switch (ds_shape) {
+    case 1: return (long)((uintptr_t)p >> 32);
+    case 2: return (long)((uintptr_t)p >> 48);
+    case 3: return (long)((uintptr_t)p & ~(1ull << 63));
+    case 4: return (long)((uintptr_t)p >> 12);
+    default: return (long)p;
+  }
+}
 static DSVAR volatile long ds_work_cell[MAX_FIBERS];
 static void ds_work(int t, int n) {
   for (int i = 0; i < n; i++) ds_work_cell[t] += i;
@@ -189,6 +210,7 @@ static void* ds_thread(void* p) {
 static void ds_run(const ds_harness_t* h) {
   DS = h;
   lin_reset();
+  ds_shape = (int)cfg_get("item_shape", 0);
   h->setup();
   int tids[MAX_FIBERS];
   for (int i = 0; i < g_case.n_fibers; i++) tids[i] = vs_thread_create(ds_thread, (void*)(intptr_t)i);
@@ -218,7 +240,7 @@ static int deque_do_op(int t, op_t* op) {
     for (int i = 0; i < op->a; i++) {
       long v = gv_new(t);
       size_t before = wsd_circular_array_size(dq->underlying_array);
-      wsd_work_stealing_deque_push_bottom(dq, (void*)v);
+      wsd_work_stealing_deque_push_bottom(dq, ENCV(v));
       if (wsd_circular_array_size(dq->underlying_array) != before) g_add(&dq_grow, 1);
       gv_pushed(v);
     }
@@ -235,7 +257,7 @@ static int deque_do_op(int t, op_t* op) {
         g_add(&dq_pop_abort, 1);
         gv_take_end_empty();
       } else {
-        gv_taken(t, (long)r, inv, "deque pop_bottom");
+        gv_taken(t, DECV(r), inv, "deque pop_bottom");
       }
     }
     return 1;
@@ -251,7 +273,7 @@ static int deque_do_op(int t, op_t* op) {
         gv_take_end_empty();
       } else {
         g_add(&dq_steal_ok, 1);
-        gv_taken(t, (long)r, inv, "deque steal");
+        gv_taken(t, DECV(r), inv, "deque steal");
       }
       if (op->b) ds_work(t, op->b);
     }
@@ -273,7 +295,7 @@ static void deque_final(void) {
       gv_take_end_empty();
       continue;
     }
-    gv_taken(0, (long)r, inv, "deque final drain");
+    gv_taken(0, DECV(r), inv, "deque final drain");
   }
   gv_final_conservation("deque");
   vs_label_add("deque_steal_ok", (uint64_t)dq_steal_ok);
@@ -351,7 +373,7 @@ static int mpmc_do_op(int t, op_t* op) {
       long v = gv_new(t);
       int id = lin_begin(t, OP_PUSH, v);
       mpmc_fifo_node_t* n = mf_node(slot);
-      n->value = (void*)v;
+      n->value = ENCV(v);
       mpmc_fifo_push(mf_record(slot), &mf, n);
       lin_end(id, OP_PUSH, 0);
       gv_pushed(v);
@@ -364,8 +386,8 @@ static int mpmc_do_op(int t, op_t* op) {
       int id = lin_begin(t, OP_POP, 0);
       void* r = mpmc_fifo_trypop(mf_record(slot), &mf);
       if (r) {
-        lin_end(id, OP_POP, (long)r);
-        gv_taken(t, (long)r, inv, "mpmc_fifo_trypop");
+        lin_end(id, OP_POP, DECV(r));
+        gv_taken(t, DECV(r), inv, "mpmc_fifo_trypop");
       } else {
         lin_end(id, OP_POP_EMPTY, 0);
         gv_empty_check("mpmc_fifo_trypop", t, inv);
@@ -388,8 +410,8 @@ static void mpmc_final(void) {
       gv_take_end_empty();
       break;
     }
-    lin_end(id, OP_POP, (long)r);
-    gv_taken(99, (long)r, inv, "mpmc_fifo final drain");
+    lin_end(id, OP_POP, DECV(r));
+    gv_taken(99, DECV(r), inv, "mpmc_fifo final drain");
   }
   gv_final_conservation("mpmc_fifo");
   gv_fifo_realtime("mpmc_fifo", 0);
@@ -571,7 +593,7 @@ static int rb_do_op(int t, op_t* op) {
     for (int i = 0; i < op->a; i++) {
       long v = gv_new(t);
       int id = lin_begin(t, OP_PUSH, v);
-      if (lockfree_ring_buffer_trypush(rb, (void*)v)) {
+      if (lockfree_ring_buffer_trypush(rb, ENCV(v))) {
         lin_end(id, OP_PUSH, 0);
         gv_pushed(v);
         grb_occupancy();
@@ -589,7 +611,7 @@ static int rb_do_op(int t, op_t* op) {
     for (int i = 0; i < op->a; i++) {
       long v = gv_new(t);
       int id = lin_begin(t, OP_PUSH, v);
-      lockfree_ring_buffer_push(rb, (void*)v);
+      lockfree_ring_buffer_push(rb, ENCV(v));
       lin_end(id, OP_PUSH, 0);
       gv_pushed(v);
       grb_occupancy();
@@ -603,8 +625,8 @@ static int rb_do_op(int t, op_t* op) {
       uint64_t inv = gv_take_begin();
       int id = lin_begin(t, OP_POP, 0);
       void* r = lockfree_ring_buffer_pop(rb);
-      lin_end(id, OP_POP, (long)r);
-      gv_taken(t, (long)r, inv, "ring buffer pop");
+      lin_end(id, OP_POP, DECV(r));
+      gv_taken(t, DECV(r), inv, "ring buffer pop");
       if (op->b) ds_work(t, op->b);
     }
     return 1;
@@ -615,8 +637,8 @@ static int rb_do_op(int t, op_t* op) {
       int id = lin_begin(t, OP_POP, 0);
       void* r = lockfree_ring_buffer_trypop(rb);
       if (r) {
-        lin_end(id, OP_POP, (long)r);
-        gv_taken(t, (long)r, inv, "ring buffer trypop");
+        lin_end(id, OP_POP, DECV(r));
+        gv_taken(t, DECV(r), inv, "ring buffer trypop");
       } else {
         lin_end(id, OP_POP_EMPTY, 0);
         gv_take_end_empty();
@@ -638,8 +660,8 @@ static void rb_final(void) {
       gv_take_end_empty();
       break;
     }
-    lin_end(id, OP_POP, (long)r);
-    gv_taken(99, (long)r, inv, "ring buffer final drain");
+    lin_end(id, OP_POP, DECV(r));
+    gv_taken(99, DECV(r), inv, "ring buffer final drain");
   }
   gv_final_conservation("ring buffer");
   gv_fifo_realtime("ring buffer", 0);
@@ -658,18 +680,25 @@ static void rb_entry(void* a) {
 const harness_t h_ring = {"ring", 0, 0, 0, 0, 0, rb_entry};
 
 // =============================================================== C17 work queue
-static DSVAR work_queue_t wq;
+// Two queues: cfg nested 1 makes the handler of every second item of queue 0 push a fresh item onto queue 1 (and work it off
+// there and then if told to): worker sessions of different queues nest on one thread.
+#define NWQ 2
+static DSVAR work_queue_t wqs[NWQ];
+#define wq wqs[0]
 #define MAX_SESS 512
 static DSVAR uint64_t sess_start[MAX_SESS], sess_end[MAX_SESS];
+static DSVAR uint8_t sess_q[MAX_SESS];
 static DSVAR int n_sess;
-static DSVAR long wq_queued, wq_started;
-static DSVAR uint8_t wq_was_queued[MAXV];
+static DSVAR long wq_queued, wq_started, wq_nested_sessions;
+static DSVAR uint8_t wq_was_queued[MAXV], v_queue[MAXV];
+static DSVAR int wq_nested;
 
-GHOST static int gwq_session_begin(void) {
+GHOST static int gwq_session_begin(int q) {
   vs_rt_enter();
   if (n_sess >= MAX_SESS) vs_violation("engine_limit", "too many worker sessions");
   sess_start[n_sess] = ++gclock;
   sess_end[n_sess] = 0;
+  sess_q[n_sess] = (uint8_t)q;
   vs_rt_exit();
   return n_sess++;
 }
@@ -677,49 +706,74 @@ GHOST static uint64_t gwq_tick(void) { return ++gclock; }
 GHOST static void gwq_session_end(int s, uint64_t at) {
   vs_rt_enter();
   sess_end[s] = at;
-  // the worker was told EMPTY by a call invoked at 'at': every item whose push had already returned QUEUED by then must
-  // have been handed out - otherwise it sits in the queue with nobody working
+  // the worker was told EMPTY by a call invoked at 'at': every item of that queue whose push had already returned QUEUED by
+  // then must have been handed out - otherwise it sits in the queue with nobody working
   for (long v = 1; v < next_val; v++)
-    if (v_pushed[v] && wq_was_queued[v] && v_push_resp[v] < at && !v_taken[v])
-      vs_violation("item_stranded", "work queue: the active worker was told EMPTY while item %ld (its push by thread %d had returned QUEUED before that call) is still queued",
-                   v, v_pusher[v]);
+    if (v_pushed[v] && v_queue[v] == sess_q[s] && wq_was_queued[v] && v_push_resp[v] < at && !v_taken[v])
+      vs_violation("item_stranded", "work queue %d: the active worker was told EMPTY while item %ld (its push by thread %d had returned QUEUED before that call) is still queued",
+                   sess_q[s], v, v_pusher[v]);
   vs_rt_exit();
 }
 GHOST static void gwq_note_queued(long v) { wq_was_queued[v] = 1; }
+GHOST static void gwq_note_queue(long v, int q) { v_queue[v] = (uint8_t)q; }
 static DSVAR int wq_presession = -1;
-static void wq_work_loop(int t, int s, int work) {
+static void wq_push_one(int t, int q, int work, int depth);
+static void wq_work_loop(int t, int q, int s, int work, int depth) {
   for (;;) {
     uint64_t inv = gv_take_begin();
     uint64_t at = gwq_tick();
     work_queue_item_t* out = 0;
-    int g = work_queue_get_work(&wq, &out);
+    int g = work_queue_get_work(&wqs[q], &out);
     if (g == WORK_QUEUE_EMPTY) {
       gv_take_end_empty();
       gwq_session_end(s, at);
       break;
     }
-    gv_taken(t, (long)out->data, inv, "work_queue_get_work");
+    long v = (long)out->data;
+    gv_taken(t, v, inv, "work_queue_get_work");
     free(out);
     if (work) ds_work(t, work);
+    // the handler of an item of queue 0 hands follow-up work to queue 1
+    if (wq_nested && q == 0 && depth == 0 && v % 2 == 0) wq_push_one(t, 1, work, 1);
+  }
+}
+static void wq_push_one(int t, int q, int work, int depth) {
+  long v = gv_new(t);
+  gwq_note_queue(v, q);
+  work_queue_item_t* it = malloc(sizeof *it);
+  it->data = (void*)v;
+  int r = work_queue_push(&wqs[q], it);
+  if (r != WORK_QUEUE_START_WORKING) gwq_note_queued(v);
+  gv_pushed(v);
+  if (r == WORK_QUEUE_START_WORKING) {
+    int s = gwq_session_begin(q);
+    g_add(&wq_started, 1);
+    if (depth) g_add(&wq_nested_sessions, 1);
+    wq_work_loop(t, q, s, work, depth);
+  } else {
+    g_add(&wq_queued, 1);
   }
 }
 static void wq_setup(void) {
-  RT_DIRTY(wq);
-  work_queue_init(&wq);
-  vs_watch(&wq, sizeof wq);
+  wq_nested = (int)cfg_get("nested", 0);
+  for (int q = 0; q < NWQ; q++) {
+    RT_DIRTY(wqs[q]);
+    work_queue_init(&wqs[q]);
+    vs_watch(&wqs[q], sizeof wqs[q]);
+  }
   wq_presession = -1;
   long base = cfg_get("session_base", 0);
   if (base > 0) {
     // start inside a worker session that has already handed out 'base' items: thread 0 pushed the first item, was told to
     // start working, and 'base' further push / get_work pairs have gone by (in_count and out_count both advanced by base);
-    // thread 0 continues that session with its first op, "wresume"
+    // thread 0 continues that session with its first op
     long v = gv_new(0);
     work_queue_item_t* it = malloc(sizeof *it);
     it->data = (void*)v;
     int r = work_queue_push(&wq, it);
     gv_pushed(v);
     if (r != WORK_QUEUE_START_WORKING) vs_violation("two_workers", "work queue: the first push into a fresh queue was not told to start working");
-    wq_presession = gwq_session_begin();
+    wq_presession = gwq_session_begin(0);
     g_add(&wq_started, 1);
     wq.in_count += base;
     wq.out_count += base;
@@ -730,41 +784,31 @@ static int wq_do_op(int t, op_t* op) {
     // thread 0 is the worker of the session the case starts in (cfg session_base)
     int s = wq_presession;
     wq_presession = -1;
-    wq_work_loop(t, s, op->b);
+    wq_work_loop(t, 0, s, op->b, 0);
   }
   if (!strcmp(op->name, "wresume")) return 1;
   if (strcmp(op->name, "wpush")) return 0;
   for (int i = 0; i < op->a; i++) {
-    long v = gv_new(t);
-    work_queue_item_t* it = malloc(sizeof *it);
-    it->data = (void*)v;
-    int r = work_queue_push(&wq, it);
-    if (r != WORK_QUEUE_START_WORKING) gwq_note_queued(v);
-    gv_pushed(v);
-    if (r == WORK_QUEUE_START_WORKING) {
-      int s = gwq_session_begin();
-      g_add(&wq_started, 1);
-      wq_work_loop(t, s, op->b);
-    } else {
-      g_add(&wq_queued, 1);
-    }
+    wq_push_one(t, 0, op->b, 0);
     if (op->c) ds_work(t, op->c);
   }
   return 1;
 }
 GHOST static void wq_final_ghost(void) {
   vs_rt_enter();
-  // worker sessions are pairwise disjoint
+  // worker sessions of one queue are pairwise disjoint
   for (int i = 0; i < n_sess; i++)
     for (int j = i + 1; j < n_sess; j++) {
+      if (sess_q[i] != sess_q[j]) continue;
       uint64_t ei = sess_end[i] ? sess_end[i] : ~0ull, ej = sess_end[j] ? sess_end[j] : ~0ull;
       if (sess_start[i] < ej && sess_start[j] < ei)
-        vs_violation("two_workers", "work queue: two callers were told to start working at the same time (sessions [%llu,%llu] and [%llu,%llu])",
+        vs_violation("two_workers", "work queue %d: two callers were told to start working at the same time (sessions [%llu,%llu] and [%llu,%llu])", sess_q[i],
                      (unsigned long long)sess_start[i], (unsigned long long)sess_end[i], (unsigned long long)sess_start[j], (unsigned long long)sess_end[j]);
     }
   for (long v = 1; v < next_val; v++)
-    if (v_pushed[v] && !v_taken[v]) vs_violation("item_stranded", "work queue: item %ld (pushed by thread %d) was left queued with no active worker", v, v_pusher[v]);
+    if (v_pushed[v] && !v_taken[v]) vs_violation("item_stranded", "work queue %d: item %ld (pushed by thread %d) was left queued with no active worker", v_queue[v], v, v_pusher[v]);
   vs_label_add("wq_sessions", (uint64_t)n_sess);
+  vs_label_add("wq_nested_sessions", (uint64_t)wq_nested_sessions);
   vs_label_add("wq_queued_pushes", (uint64_t)wq_queued);
   if (wq_queued > 0 && n_sess > 0) rt_nontrivial("workq");
   vs_rt_exit();
